@@ -639,7 +639,7 @@ func ruleGuardUpdate(c *Ctx, r *Rep) {
 		}
 		return "", false, false
 	}
-	nTrue := 0
+	nTrue, nFalse := 0, 0
 	for _, ret := range returnsOf(fn) {
 		k, ok := retResults(ret)[0].(*ssa.Const)
 		if !ok {
@@ -655,6 +655,58 @@ func ruleGuardUpdate(c *Ctx, r *Rep) {
 			}
 			r.Check(bad == "", sprintf("reason-reachable|%s#%d", fk, nTrue), c.Pos(ret.Pos()), "no `return true` lies behind a test that only a failed fetch passes", bad)
 			continue
+		}
+		// "nothing to do" is answered only after every reason was looked at: a `return false` that does not lie behind
+		// a failed fetch is reached only by ways that pass a test of each strategy flag of the table
+		{
+			behindFailure := false
+			for _, g := range guardsOf(ret.Block()) {
+				if _, failed, ok := failure(g.Cond, g.Truth); ok && failed {
+					behindFailure = true
+				}
+				// a fetch helper of the module that answers (…, ok bool): not ok
+				if ex, isEx := g.Cond.(*ssa.Extract); isEx && !g.Truth {
+					if call, isCall := ex.Tuple.(*ssa.Call); isCall {
+						if f := call.Call.StaticCallee(); f != nil && c.InModule(f) && ex.Index == f.Signature.Results().Len()-1 {
+							behindFailure = true
+						}
+					}
+				}
+			}
+			if !behindFailure {
+				nFalse++
+				paths, okP := a.pathsDNF(fn.Blocks[0], ret.Block(), 50000)
+				if !okP {
+					r.Undecided(sprintf("shape:all-reasons-tested|%s#%d", fk, nFalse), c.Pos(ret.Pos()), "too many paths")
+				} else {
+					missing := map[string]bool{}
+					for _, p := range paths {
+						sign := map[string]bool{}
+						feasible, failedFetch := true, false
+						for _, l := range p {
+							if was, dup := sign[l.atom]; dup && was != l.pos {
+								feasible = false
+							}
+							sign[l.atom] = l.pos
+							if strings.HasPrefix(l.atom, "nil(") && strings.Contains(l.atom, "#1)") && !l.pos {
+								failedFetch = true // an error that is not nil
+							}
+						}
+						if !feasible || failedFetch {
+							continue
+						}
+						for fa := range table {
+							if !strings.HasPrefix(fa, "flag(") {
+								continue
+							}
+							if _, tested := sign[fa]; !tested {
+								missing[names[fa]] = true
+							}
+						}
+					}
+					r.Check(len(missing) == 0, sprintf("all-reasons-tested|%s#%d", fk, nFalse), c.Pos(ret.Pos()), "every way to this `return false` passes a test of each strategy flag (no reason is skipped)", "reached without a test of: "+fmtSet(missing))
+				}
+			}
 		}
 		b := ret.Block()
 		if len(b.Preds) != 1 {
